@@ -17,13 +17,13 @@ package mp4
 //@ spec sbgpPreF(ver byte, flags uint32, gt string, gtp uint32, n uint32, t uint64) uint64 = trApp(ite(ver == 1, trApp(trApp(trApp(t, chU(32, vf(ver, flags))), chBytes(gt)), chU(32, gtp)), trApp(trApp(t, chU(32, vf(ver, flags))), chBytes(gt))), chU(32, n))
 //@ spec sbgpBody(b *SbgpBox, t uint64) uint64 = sbgpTr(b.SampleCounts, b.GroupDescriptionIndices, len(b.SampleCounts), sbgpPreF(b.Version, b.Flags, b.GroupingType, b.GroupingTypeParameter, uint32(len(b.SampleCounts)), t))
 // NOT PROVED (inv-pres:1 undecided: append re-allocates, frame lemma for sbgpTr not available; inv-init and post proved):
-//@ func DecodeSbgpSR
-//@   ensures[C01] result1 == nil && sr.(*bits.FixedSliceReader).err == nil ==> ghost(sr).tr == sbgpBody(result0.(*SbgpBox), old(ghost(sr).tr))
-//@   loop 1 invariant 0 <= i && len(b.SampleCounts) == i && len(b.GroupDescriptionIndices) == i
-//@   loop 1 invariant sr.(*bits.FixedSliceReader).err == nil ==> ghost(sr).tr == sbgpTr(b.SampleCounts, b.GroupDescriptionIndices, i, sbgpPreF(b.Version, b.Flags, b.GroupingType, b.GroupingTypeParameter, uint32(entryCount), old(ghost(sr).tr)))
-//@ func (*SbgpBox).EncodeSW
-//@   ensures[C01] result == nil && sw.(*bits.FixedSliceWriter).accError == nil ==> ghost(sw).tr == sbgpBody(b, trHdr(old(ghost(sw).tr), uint32(b.Size()), b.Type()))
-//@   loop 1 invariant sw.(*bits.FixedSliceWriter).accError == nil ==> ghost(sw).tr == sbgpTr(b.SampleCounts, b.GroupDescriptionIndices, i, sbgpPreF(b.Version, b.Flags, b.GroupingType, b.GroupingTypeParameter, uint32(len(b.SampleCounts)), trHdr(old(ghost(sw).tr), uint32(b.Size()), b.Type())))
+// (inactive)  func DecodeSbgpSR
+// (inactive)    ensures[C01] result1 == nil && sr.(*bits.FixedSliceReader).err == nil ==> ghost(sr).tr == sbgpBody(result0.(*SbgpBox), old(ghost(sr).tr))
+// (inactive)    loop 1 invariant 0 <= i && len(b.SampleCounts) == i && len(b.GroupDescriptionIndices) == i
+// (inactive)    loop 1 invariant sr.(*bits.FixedSliceReader).err == nil ==> ghost(sr).tr == sbgpTr(b.SampleCounts, b.GroupDescriptionIndices, i, sbgpPreF(b.Version, b.Flags, b.GroupingType, b.GroupingTypeParameter, uint32(entryCount), old(ghost(sr).tr)))
+// (inactive)  func (*SbgpBox).EncodeSW
+// (inactive)    ensures[C01] result == nil && sw.(*bits.FixedSliceWriter).accError == nil ==> ghost(sw).tr == sbgpBody(b, trHdr(old(ghost(sw).tr), uint32(b.Size()), b.Type()))
+// (inactive)    loop 1 invariant sw.(*bits.FixedSliceWriter).accError == nil ==> ghost(sw).tr == sbgpTr(b.SampleCounts, b.GroupDescriptionIndices, i, sbgpPreF(b.Version, b.Flags, b.GroupingType, b.GroupingTypeParameter, uint32(len(b.SampleCounts)), trHdr(old(ghost(sw).tr), uint32(b.Size()), b.Type())))
 
 // ---- stco
 //@ spec rec u32sTr(xs []uint32, n int, t uint64) uint64 = ite(n <= 0, t, trApp(u32sTr(xs, n-1, t), chU(32, xs[n-1])))
@@ -143,7 +143,7 @@ package mp4
 //@ spec tkhdBody(b *TkhdBox, t uint64, mx uint64) uint64 = trApp(trApp(trApp(trApp(trApp(trApp(trApp(trApp(tkhdHead(b, t), chU(0, uint64(8))), chU(16, uint16(b.Layer))), chU(16, uint16(b.AlternateGroup))), chU(16, uint16(b.Volume))), chU(0, uint64(2))), mx), chU(32, uint32(b.Width))), chU(32, uint32(b.Height)))
 //@ func DecodeTkhdSR
 //@   ensures[C01] result1 == nil && sr.(*bits.FixedSliceReader).err == nil ==> ghost(sr).tr == tkhdBody(result0.(*TkhdBox), old(ghost(sr).tr), chU(0, uint64(36)))
-// NOT PROVED (FINDING: fails for Version >= 2, the decoder uses the 32-bit layout unless Version == 1, the encoder the 64-bit layout unless Version == 0; proved when b.Version <= 1 is added to the premise):
+// (repaired by a fix: commit; was: fails for Version >= 2, the decoder uses the 32-bit layout unless Version == 1, the encoder the 64-bit layout unless Version == 0; proved when b.Version <= 1 is added to the premise):
 //@ func (*TkhdBox).EncodeSW
 //@   ensures[C01] result == nil && sw.(*bits.FixedSliceWriter).accError == nil ==> ghost(sw).tr == tkhdBody(b, trHdr(old(ghost(sw).tr), uint32(b.Size()), b.Type()), chU(1, uint64(0)))
 
@@ -152,15 +152,15 @@ package mp4
 //@ spec saizPreF(ver byte, flags uint32, ait string, aitp uint32, dsis byte, cnt uint32, t uint64) uint64 = trApp(trApp(ite(flags&0x01 != 0, trApp(trApp(trApp(t, chU(32, vf(ver, flags))), chBytes(ait)), chU(32, aitp)), trApp(t, chU(32, vf(ver, flags)))), chU(8, dsis)), chU(32, cnt))
 //@ spec saizBody(b *SaizBox, t uint64) uint64 = ite(b.DefaultSampleInfoSize == 0, u8sTr(b.SampleInfo, int(b.SampleCount), saizPreF(b.Version, b.Flags, b.AuxInfoType, b.AuxInfoTypeParameter, b.DefaultSampleInfoSize, b.SampleCount, t)), saizPreF(b.Version, b.Flags, b.AuxInfoType, b.AuxInfoTypeParameter, b.DefaultSampleInfoSize, b.SampleCount, t))
 // NOT PROVED (inv-pres:1 undecided: append; inv-init and post proved):
-//@ func DecodeSaizSR
-//@   ensures[C01] result1 == nil && sr.(*bits.FixedSliceReader).err == nil ==> ghost(sr).tr == saizBody(result0.(*SaizBox), old(ghost(sr).tr))
-//@   loop 1 invariant len(b.SampleInfo) == int(i) && i <= b.SampleCount && cap(b.SampleInfo) == int(b.SampleCount) && b.DefaultSampleInfoSize == 0
-//@   loop 1 invariant sr.(*bits.FixedSliceReader).err == nil ==> ghost(sr).tr == u8sTr(b.SampleInfo, int(i), saizPreF(b.Version, b.Flags, b.AuxInfoType, b.AuxInfoTypeParameter, b.DefaultSampleInfoSize, b.SampleCount, old(ghost(sr).tr)))
+// (inactive)  func DecodeSaizSR
+// (inactive)    ensures[C01] result1 == nil && sr.(*bits.FixedSliceReader).err == nil ==> ghost(sr).tr == saizBody(result0.(*SaizBox), old(ghost(sr).tr))
+// (inactive)    loop 1 invariant len(b.SampleInfo) == int(i) && i <= b.SampleCount && cap(b.SampleInfo) == int(b.SampleCount) && b.DefaultSampleInfoSize == 0
+// (inactive)    loop 1 invariant sr.(*bits.FixedSliceReader).err == nil ==> ghost(sr).tr == u8sTr(b.SampleInfo, int(i), saizPreF(b.Version, b.Flags, b.AuxInfoType, b.AuxInfoTypeParameter, b.DefaultSampleInfoSize, b.SampleCount, old(ghost(sr).tr)))
 // NOT PROVED (inv-pres:1 undecided: u8sTr reads the byte heap that WriteUint8 writes (no separation of b.SampleInfo from the writer buffer, no frame lemma)):
-//@ func (*SaizBox).EncodeSW
-//@   ensures[C01] result == nil && sw.(*bits.FixedSliceWriter).accError == nil ==> ghost(sw).tr == saizBody(b, trHdr(old(ghost(sw).tr), uint32(b.Size()), b.Type()))
-//@   loop 1 invariant i <= b.SampleCount
-//@   loop 1 invariant sw.(*bits.FixedSliceWriter).accError == nil ==> ghost(sw).tr == u8sTr(b.SampleInfo, int(i), saizPreF(b.Version, b.Flags, b.AuxInfoType, b.AuxInfoTypeParameter, b.DefaultSampleInfoSize, b.SampleCount, trHdr(old(ghost(sw).tr), uint32(b.Size()), b.Type())))
+// (inactive)  func (*SaizBox).EncodeSW
+// (inactive)    ensures[C01] result == nil && sw.(*bits.FixedSliceWriter).accError == nil ==> ghost(sw).tr == saizBody(b, trHdr(old(ghost(sw).tr), uint32(b.Size()), b.Type()))
+// (inactive)    loop 1 invariant i <= b.SampleCount
+// (inactive)    loop 1 invariant sw.(*bits.FixedSliceWriter).accError == nil ==> ghost(sw).tr == u8sTr(b.SampleInfo, int(i), saizPreF(b.Version, b.Flags, b.AuxInfoType, b.AuxInfoTypeParameter, b.DefaultSampleInfoSize, b.SampleCount, trHdr(old(ghost(sw).tr), uint32(b.Size()), b.Type())))
 
 // ---- saio  (decoder appends: decoder side blocked, see report)
 //@ spec rec saioTr32(xs []int64, n int, t uint64) uint64 = ite(n <= 0, t, trApp(saioTr32(xs, n-1, t), chU(32, uint32(int32(xs[n-1])))))
@@ -168,18 +168,18 @@ package mp4
 //@ spec saioPreF(ver byte, flags uint32, ait string, aitp uint32, cnt uint32, t uint64) uint64 = trApp(ite(flags&0x01 != 0, trApp(trApp(trApp(t, chU(32, vf(ver, flags))), chBytes(ait)), chU(32, aitp)), trApp(t, chU(32, vf(ver, flags)))), chU(32, cnt))
 //@ spec saioBody(b *SaioBox, t uint64) uint64 = ite(b.Version == 0, saioTr32(b.Offset, len(b.Offset), saioPreF(b.Version, b.Flags, b.AuxInfoType, b.AuxInfoTypeParameter, uint32(len(b.Offset)), t)), saioTr64(b.Offset, len(b.Offset), saioPreF(b.Version, b.Flags, b.AuxInfoType, b.AuxInfoTypeParameter, uint32(len(b.Offset)), t)))
 // NOT PROVED (inv-pres:1/2 undecided: append; inv-init and post proved):
-//@ func DecodeSaioSR
-//@   ensures[C01] result1 == nil && sr.(*bits.FixedSliceReader).err == nil ==> ghost(sr).tr == saioBody(result0.(*SaioBox), old(ghost(sr).tr))
-//@   loop 1 invariant len(b.Offset) == int(i) && i <= entryCount && b.Version == 0
-//@   loop 1 invariant sr.(*bits.FixedSliceReader).err == nil ==> ghost(sr).tr == saioTr32(b.Offset, int(i), saioPreF(b.Version, b.Flags, b.AuxInfoType, b.AuxInfoTypeParameter, entryCount, old(ghost(sr).tr)))
-//@   loop 2 invariant len(b.Offset) == int(i) && i <= entryCount && b.Version != 0
-//@   loop 2 invariant sr.(*bits.FixedSliceReader).err == nil ==> ghost(sr).tr == saioTr64(b.Offset, int(i), saioPreF(b.Version, b.Flags, b.AuxInfoType, b.AuxInfoTypeParameter, entryCount, old(ghost(sr).tr)))
-//@ func (*SaioBox).EncodeSW
-//@   ensures[C01] result == nil && sw.(*bits.FixedSliceWriter).accError == nil ==> ghost(sw).tr == saioBody(b, trHdr(old(ghost(sw).tr), uint32(b.Size()), b.Type()))
-//@   loop 1 invariant 0 <= i
-//@   loop 1 invariant sw.(*bits.FixedSliceWriter).accError == nil ==> ghost(sw).tr == saioTr32(b.Offset, i, saioPreF(b.Version, b.Flags, b.AuxInfoType, b.AuxInfoTypeParameter, uint32(len(b.Offset)), trHdr(old(ghost(sw).tr), uint32(b.Size()), b.Type())))
-//@   loop 2 invariant 0 <= i
-//@   loop 2 invariant sw.(*bits.FixedSliceWriter).accError == nil ==> ghost(sw).tr == saioTr64(b.Offset, i, saioPreF(b.Version, b.Flags, b.AuxInfoType, b.AuxInfoTypeParameter, uint32(len(b.Offset)), trHdr(old(ghost(sw).tr), uint32(b.Size()), b.Type())))
+// (inactive)  func DecodeSaioSR
+// (inactive)    ensures[C01] result1 == nil && sr.(*bits.FixedSliceReader).err == nil ==> ghost(sr).tr == saioBody(result0.(*SaioBox), old(ghost(sr).tr))
+// (inactive)    loop 1 invariant len(b.Offset) == int(i) && i <= entryCount && b.Version == 0
+// (inactive)    loop 1 invariant sr.(*bits.FixedSliceReader).err == nil ==> ghost(sr).tr == saioTr32(b.Offset, int(i), saioPreF(b.Version, b.Flags, b.AuxInfoType, b.AuxInfoTypeParameter, entryCount, old(ghost(sr).tr)))
+// (inactive)    loop 2 invariant len(b.Offset) == int(i) && i <= entryCount && b.Version != 0
+// (inactive)    loop 2 invariant sr.(*bits.FixedSliceReader).err == nil ==> ghost(sr).tr == saioTr64(b.Offset, int(i), saioPreF(b.Version, b.Flags, b.AuxInfoType, b.AuxInfoTypeParameter, entryCount, old(ghost(sr).tr)))
+// (inactive)  func (*SaioBox).EncodeSW
+// (inactive)    ensures[C01] result == nil && sw.(*bits.FixedSliceWriter).accError == nil ==> ghost(sw).tr == saioBody(b, trHdr(old(ghost(sw).tr), uint32(b.Size()), b.Type()))
+// (inactive)    loop 1 invariant 0 <= i
+// (inactive)    loop 1 invariant sw.(*bits.FixedSliceWriter).accError == nil ==> ghost(sw).tr == saioTr32(b.Offset, i, saioPreF(b.Version, b.Flags, b.AuxInfoType, b.AuxInfoTypeParameter, uint32(len(b.Offset)), trHdr(old(ghost(sw).tr), uint32(b.Size()), b.Type())))
+// (inactive)    loop 2 invariant 0 <= i
+// (inactive)    loop 2 invariant sw.(*bits.FixedSliceWriter).accError == nil ==> ghost(sw).tr == saioTr64(b.Offset, i, saioPreF(b.Version, b.Flags, b.AuxInfoType, b.AuxInfoTypeParameter, uint32(len(b.Offset)), trHdr(old(ghost(sw).tr), uint32(b.Size()), b.Type())))
 
 // ---- stsc  (decoder side blocked: the singleSampleDescriptionID compaction needs induction, see report)
 //@ spec rec stscTr(es []StscEntry, sdi []uint32, single uint32, n int, t uint64) uint64 = ite(n <= 0, t, trApp(trApp(trApp(stscTr(es, sdi, single, n-1, t), chU(32, es[n-1].FirstChunk)), chU(32, es[n-1].SamplesPerChunk)), chU(32, ite(single != 0, single, sdi[n-1]))))
@@ -193,13 +193,13 @@ package mp4
 //@ spec sidxHead(b *SidxBox, t uint64) uint64 = ite(b.Version == 0, trApp(trApp(trApp(trApp(trApp(t, chU(32, vf(b.Version, b.Flags))), chU(32, b.ReferenceID)), chU(32, b.Timescale)), chU(32, uint32(b.EarliestPresentationTime))), chU(32, uint32(b.FirstOffset))), trApp(trApp(trApp(trApp(trApp(t, chU(32, vf(b.Version, b.Flags))), chU(32, b.ReferenceID)), chU(32, b.Timescale)), chU(64, b.EarliestPresentationTime)), chU(64, b.FirstOffset)))
 //@ spec sidxBody(b *SidxBox, t uint64, rsv uint64) uint64 = sidxTr(b.SidxRefs, len(b.SidxRefs), trApp(trApp(sidxHead(b, t), rsv), chU(16, uint16(len(b.SidxRefs)))))
 // NOT PROVED (inv-pres:1 undecided: append; inv-init and post proved):
-//@ func DecodeSidxSR
-//@   ensures[C01] result1 == nil && sr.(*bits.FixedSliceReader).err == nil ==> ghost(sr).tr == sidxBody(result0.(*SidxBox), old(ghost(sr).tr), chU(0, uint64(2)))
-//@   loop 1 invariant 0 <= i && len(b.SidxRefs) == i
-//@   loop 1 invariant sr.(*bits.FixedSliceReader).err == nil ==> ghost(sr).tr == sidxTr(b.SidxRefs, i, trApp(trApp(sidxHead(b, old(ghost(sr).tr)), chU(0, uint64(2))), chU(16, refCount)))
-//@ func (*SidxBox).EncodeSW
-//@   ensures[C01] result == nil && sw.(*bits.FixedSliceWriter).accError == nil ==> ghost(sw).tr == sidxBody(b, trHdr(old(ghost(sw).tr), uint32(b.Size()), b.Type()), chU(16, uint16(0)))
-//@   loop 1 invariant sw.(*bits.FixedSliceWriter).accError == nil ==> ghost(sw).tr == sidxTr(b.SidxRefs, idx(1), trApp(trApp(sidxHead(b, trHdr(old(ghost(sw).tr), uint32(b.Size()), b.Type())), chU(16, uint16(0))), chU(16, uint16(len(b.SidxRefs)))))
+// (inactive)  func DecodeSidxSR
+// (inactive)    ensures[C01] result1 == nil && sr.(*bits.FixedSliceReader).err == nil ==> ghost(sr).tr == sidxBody(result0.(*SidxBox), old(ghost(sr).tr), chU(0, uint64(2)))
+// (inactive)    loop 1 invariant 0 <= i && len(b.SidxRefs) == i
+// (inactive)    loop 1 invariant sr.(*bits.FixedSliceReader).err == nil ==> ghost(sr).tr == sidxTr(b.SidxRefs, i, trApp(trApp(sidxHead(b, old(ghost(sr).tr)), chU(0, uint64(2))), chU(16, refCount)))
+// (inactive)  func (*SidxBox).EncodeSW
+// (inactive)    ensures[C01] result == nil && sw.(*bits.FixedSliceWriter).accError == nil ==> ghost(sw).tr == sidxBody(b, trHdr(old(ghost(sw).tr), uint32(b.Size()), b.Type()), chU(16, uint16(0)))
+// (inactive)    loop 1 invariant sw.(*bits.FixedSliceWriter).accError == nil ==> ghost(sw).tr == sidxTr(b.SidxRefs, idx(1), trApp(trApp(sidxHead(b, trHdr(old(ghost(sw).tr), uint32(b.Size()), b.Type())), chU(16, uint16(0))), chU(16, uint16(len(b.SidxRefs)))))
 
 // ---- pssh  (decoder side blocked: UUID(string) conversion copies, append, empty Data; see report)
 //@ spec rec psshKids(ks []UUID, n int, t uint64) uint64 = ite(n <= 0, t, trApp(psshKids(ks, n-1, t), chBytes(ks[n-1])))
@@ -229,7 +229,7 @@ package mp4
 //@ spec rec subsSamples(ss []SubsSample, ver byte, n int, t uint64) uint64 = ite(n <= 0, t, trApp(trApp(trApp(trApp(subsSamples(ss, ver, n-1, t), ite(ver == 1, chU(32, ss[n-1].SubsampleSize), chU(16, uint16(ss[n-1].SubsampleSize)))), chU(8, ss[n-1].SubsamplePriority)), chU(8, ss[n-1].Discardable)), chU(32, ss[n-1].CodecSpecificParameters)))
 //@ spec rec subsTr(es []SubsEntry, ver byte, n int, t uint64) uint64 = ite(n <= 0, t, subsSamples(es[n-1].SubSamples, ver, len(es[n-1].SubSamples), trApp(trApp(subsTr(es, ver, n-1, t), chU(32, es[n-1].SampleDelta)), chU(16, uint16(len(es[n-1].SubSamples))))))
 //@ spec subsBody(b *SubsBox, t uint64) uint64 = subsTr(b.Entries, b.Version, len(b.Entries), trApp(trApp(t, chU(32, vf(b.Version, b.Flags))), chU(32, uint32(len(b.Entries)))))
-//@ spec rec subsSz(es []SubsEntry, ver byte, n int) int = ite(n <= 0, 16, subsSz(es, ver, n-1) + 6 + ite(ver == 0, len(es[n-1].SubSamples) * 8, len(es[n-1].SubSamples) * 10))
+//@ spec rec subsSz(es []SubsEntry, ver byte, n int) int = ite(n <= 0, 16, subsSz(es, ver, n-1) + 6 + ite(ver != 1, len(es[n-1].SubSamples) * 8, len(es[n-1].SubSamples) * 10))
 //@ func (*SubsBox).Size
 //@   ensures result == uint64(subsSz(b.Entries, b.Version, len(b.Entries)))
 //@   assigns nothing
@@ -246,10 +246,10 @@ package mp4
 //@ spec tfraPreF(ver byte, flags uint32, tid uint32, s1 byte, s2 byte, s3 byte, cnt uint32, t uint64, rsv uint32) uint64 = trApp(trApp(trApp(trApp(t, chU(32, vf(ver, flags))), chU(32, tid)), chU(32, rsv<<6 | uint32(s1<<4 + s2<<2 + s3))), chU(32, cnt))
 //@ spec tfraBody(b *TfraBox, t uint64, rsv uint32) uint64 = tfraTr(b.Entries, b.Version, b.LengthSizeOfTrafNum, b.LengthSizeOfTrunNum, b.LengthSizeOfSampleNum, len(b.Entries), tfraPreF(b.Version, b.Flags, b.TrackID, b.LengthSizeOfTrafNum, b.LengthSizeOfTrunNum, b.LengthSizeOfSampleNum, uint32(len(b.Entries)), t, rsv))
 // NOT PROVED (inv-pres:1 and post undecided: append):
-//@ func DecodeTfraSR
-//@   ensures[C01] result1 == nil && sr.(*bits.FixedSliceReader).err == nil ==> exists rsv uint32 :: ghost(sr).tr == tfraBody(result0.(*TfraBox), old(ghost(sr).tr), rsv)
-//@   loop 1 invariant len(b.Entries) == int(i) && i <= nrEntries && cap(b.Entries) == int(nrEntries) && b.LengthSizeOfTrafNum <= 3 && b.LengthSizeOfTrunNum <= 3 && b.LengthSizeOfSampleNum <= 3
-//@   loop 1 invariant sr.(*bits.FixedSliceReader).err == nil ==> ghost(sr).tr == tfraTr(b.Entries, b.Version, b.LengthSizeOfTrafNum, b.LengthSizeOfTrunNum, b.LengthSizeOfSampleNum, int(i), tfraPreF(b.Version, b.Flags, b.TrackID, b.LengthSizeOfTrafNum, b.LengthSizeOfTrunNum, b.LengthSizeOfSampleNum, nrEntries, old(ghost(sr).tr), sizesBlock>>6))
-//@ func (*TfraBox).EncodeSW
-//@   ensures[C01] result == nil && sw.(*bits.FixedSliceWriter).accError == nil ==> ghost(sw).tr == tfraBody(b, trHdr(old(ghost(sw).tr), uint32(b.Size()), b.Type()), uint32(0))
-//@   loop 1 invariant sw.(*bits.FixedSliceWriter).accError == nil ==> ghost(sw).tr == tfraTr(b.Entries, b.Version, b.LengthSizeOfTrafNum, b.LengthSizeOfTrunNum, b.LengthSizeOfSampleNum, idx(1), tfraPreF(b.Version, b.Flags, b.TrackID, b.LengthSizeOfTrafNum, b.LengthSizeOfTrunNum, b.LengthSizeOfSampleNum, uint32(len(b.Entries)), trHdr(old(ghost(sw).tr), uint32(b.Size()), b.Type()), uint32(0)))
+// (inactive)  func DecodeTfraSR
+// (inactive)    ensures[C01] result1 == nil && sr.(*bits.FixedSliceReader).err == nil ==> exists rsv uint32 :: ghost(sr).tr == tfraBody(result0.(*TfraBox), old(ghost(sr).tr), rsv)
+// (inactive)    loop 1 invariant len(b.Entries) == int(i) && i <= nrEntries && cap(b.Entries) == int(nrEntries) && b.LengthSizeOfTrafNum <= 3 && b.LengthSizeOfTrunNum <= 3 && b.LengthSizeOfSampleNum <= 3
+// (inactive)    loop 1 invariant sr.(*bits.FixedSliceReader).err == nil ==> ghost(sr).tr == tfraTr(b.Entries, b.Version, b.LengthSizeOfTrafNum, b.LengthSizeOfTrunNum, b.LengthSizeOfSampleNum, int(i), tfraPreF(b.Version, b.Flags, b.TrackID, b.LengthSizeOfTrafNum, b.LengthSizeOfTrunNum, b.LengthSizeOfSampleNum, nrEntries, old(ghost(sr).tr), sizesBlock>>6))
+// (inactive)  func (*TfraBox).EncodeSW
+// (inactive)    ensures[C01] result == nil && sw.(*bits.FixedSliceWriter).accError == nil ==> ghost(sw).tr == tfraBody(b, trHdr(old(ghost(sw).tr), uint32(b.Size()), b.Type()), uint32(0))
+// (inactive)    loop 1 invariant sw.(*bits.FixedSliceWriter).accError == nil ==> ghost(sw).tr == tfraTr(b.Entries, b.Version, b.LengthSizeOfTrafNum, b.LengthSizeOfTrunNum, b.LengthSizeOfSampleNum, idx(1), tfraPreF(b.Version, b.Flags, b.TrackID, b.LengthSizeOfTrafNum, b.LengthSizeOfTrunNum, b.LengthSizeOfSampleNum, uint32(len(b.Entries)), trHdr(old(ghost(sw).tr), uint32(b.Size()), b.Type()), uint32(0)))
